@@ -81,11 +81,17 @@ class XModel:
         if kind == 'function' and name == 'max':
             a, b = I.expr(args[0], env), I.expr(args[1], env)
             if isinstance(a, IV) and isinstance(b, IV):
+                lbs = []
+                for x in (a, b):
+                    lbs += (x.lbs or ([x.aff] if x.aff is not None else []))
                 try:
                     ge = I.truth(I.binop('>=', a, b, n), n)
-                    return a if ge else b
+                    w_ = a if ge else b
+                    r = IV(w_.w, w_.signed, w_.lo, w_.hi, w_.bits, None, w_.aff)
                 except NeedSplit:
-                    return IV(a.w, a.signed, max(a.lo, b.lo), max(a.hi, b.hi))
+                    r = IV(a.w, a.signed, max(a.lo, b.lo), max(a.hi, b.hi))
+                r.lbs = lbs
+                return r
         return NotImplemented
 
     def fix_containers(self, o):
